@@ -429,14 +429,17 @@ impl Hypercore {
         let clear_offset = match self.tree.byte_offset(start, None)? {
             Either::Right(value) => value,
             Either::Left(instructions) => {
-                let new_infos = self.storage.read_infos_to_vec(&instructions).await?;
-                infos.extend(new_infos);
-                match self.tree.byte_offset(start, Some(&infos))? {
-                    Either::Right(value) => value,
-                    Either::Left(_) => {
-                        return Err(HypercoreError::InvalidOperation {
-                            context: format!("Could not read offset for index {start} from tree"),
-                        });
+                // NB: Loop until everything needed has been read: a node that came from the
+                // node cache on one pass may have been evicted before the next one.
+                let mut instructions = instructions;
+                loop {
+                    let new_infos = self.storage.read_infos_to_vec(&instructions).await?;
+                    infos.extend(new_infos);
+                    match self.tree.byte_offset(start, Some(&infos))? {
+                        Either::Right(value) => break value,
+                        Either::Left(new_instructions) => {
+                            instructions = new_instructions;
+                        }
                     }
                 }
             }
@@ -513,20 +516,20 @@ impl Hypercore {
                 {
                     Either::Right(value) => value,
                     Either::Left(instructions) => {
-                        let infos = self.storage.read_infos_to_vec(&instructions).await?;
-                        match self.tree.byte_offset_in_changeset(
-                            block.index,
-                            &changeset,
-                            Some(&infos),
-                        )? {
-                            Either::Right(value) => value,
-                            Either::Left(_) => {
-                                return Err(HypercoreError::InvalidOperation {
-                                    context: format!(
-                                        "Could not read offset for index {} from tree",
-                                        block.index
-                                    ),
-                                });
+                        // NB: Loop, see clear()
+                        let mut instructions = instructions;
+                        let mut infos: Vec<StoreInfo> = vec![];
+                        loop {
+                            infos.extend(self.storage.read_infos_to_vec(&instructions).await?);
+                            match self.tree.byte_offset_in_changeset(
+                                block.index,
+                                &changeset,
+                                Some(&infos),
+                            )? {
+                                Either::Right(value) => break value,
+                                Either::Left(new_instructions) => {
+                                    instructions = new_instructions;
+                                }
                             }
                         }
                     }
